@@ -9,6 +9,7 @@ import (
 	"sort"
 	"strings"
 	"testing"
+	"time"
 
 	"pgregory.net/rapid"
 	"verif/harness/internal/ev"
@@ -482,7 +483,8 @@ func shrinkMatrix(c *MCase, msg string) (*MCase, string) {
 		m, infra, _, _ := evaluateMatrix(d, dir)
 		return m, infra == "" && m != ""
 	}
-	for changed := true; changed; {
+	stop := time.Now().Add(90 * time.Second) // each attempt runs staticcheck several times
+	for changed := true; changed && time.Now().Before(stop); {
 		changed = false
 		for i := range c.Slots {
 			if len(c.Slots) <= 1 {
